@@ -255,7 +255,9 @@ impl HandshakeState {
                 Token::S => {
                     if !self.s.is_on() {
                         return Err(StateProblem::MissingKeyMaterial.into());
-                    } else if byte_index + self.s.pub_len() > message.len() {
+                    }
+                    let tag_len = if self.symmetricstate.has_key() { TAGLEN } else { 0 };
+                    if byte_index + self.s.pub_len() + tag_len > message.len() {
                         return Err(Error::Input);
                     }
 
